@@ -84,6 +84,7 @@ def trees(draw):
             base = draw(st.sampled_from(STEMS)) + draw(st.sampled_from(EXTS))
         d = draw(st.sampled_from(dirs))
         content = draw(st.one_of(st.sampled_from([b'', b'X DEFINITIONS ::= BEGIN END\n', b'caf\xc3\xa9 \xff\xfe bad utf8',
+                                                  b'X DEFINITIONS ::= BEGIN\r\n-- dos line ends\r\nEND\r\n', b'old mac\rline\rends\r',
                                                   'héllo — ünïcode\n'.encode('utf-8')]),
                                  st.binary(min_size=1, max_size=30)))
         mtime = 1000000000 + draw(st.integers(0, 5000)) * 2
